@@ -335,11 +335,12 @@ if not MISSING:
         ctl = getattr(results, "_verif_ctl", None)
         if ctl is None:
             return orig_execute(self, results, profiles)
+        prev = getattr(TL, "ctl", None)
         TL.ctl = ctl
         try:
             return _execute(self, results, profiles, ctl)
         finally:
-            TL.ctl = None
+            TL.ctl = prev
 
     def _execute(self, results, profiles, ctl):
         inline = ctl.on_sched()
@@ -456,6 +457,56 @@ if not MISSING:
 
     H.async_execute = ae
     D.async_execute = ae
+
+
+def run_controlled_many(items):
+    """several executions AT THE SAME TIME, each under its own controller: items = [(thunk, ctl, is_async)]; every
+    call runs in its own thread (an AsyncDAG in its own event loop); the controller of a call is found through
+    the invoking thread (TL.ctl) and through the tag of its results map, never through CUR.
+    -> list of (status, value|exc) as run_controlled."""
+    if MISSING:
+        raise HarnessBroken("names not found in tawazi: %s" % MISSING)
+    boxes = [dict() for _ in items]
+
+    def body(k, thunk, ctl, is_async):
+        TL.ctl = ctl
+        ctl.invoker = threading.get_ident()
+        try:
+            if is_async:
+                boxes[k]["st"] = ("ok", asyncio.run(thunk()))
+            else:
+                boxes[k]["st"] = ("ok", thunk())
+        except BaseException as e:  # noqa: BLE001
+            boxes[k]["st"] = ("raise", e)
+        finally:
+            TL.ctl = None
+
+    ths = [threading.Thread(target=body, args=(k,) + tuple(it), daemon=True) for k, it in enumerate(items)]
+    for th in ths:
+        th.start()
+    deadline = time.time() + RUN_TIMEOUT
+    out = []
+    for k, th in enumerate(ths):
+        th.join(max(0.0, deadline - time.time()))
+        ctl = items[k][1]
+        if th.is_alive():
+            ctl.give_up(ctl.broken or "call did not return within %.0f s" % RUN_TIMEOUT)
+            th.join(3.0)
+            out.append(("hang", boxes[k].get("st") if not th.is_alive() else None))
+        else:
+            out.append(boxes[k]["st"])
+    for _, ctl, _a in items:
+        for g in list(ctl.gates.values()):
+            g.set()
+        ctl.free_run = True
+    t0 = time.time()
+    while time.time() - t0 < 5 and not all(ctl.quiet() for _, ctl, _a in items):
+        time.sleep(0.0005)
+    time.sleep(0.03)
+    for _, ctl, _a in items:
+        if not ctl.quiet() and ctl.broken is None:
+            ctl.broken = "stragglers did not drain"
+    return out
 
 
 MSG_RE = __import__("re").compile(r"Error occurred while executing ExecNode (.+?) at ")
